@@ -1215,8 +1215,24 @@ func notSourcemapOnly(in ssa.Instruction, mapperFld *types.Var) string {
 		if isSourcemapType(x.Type()) && !isSourcemapPkgType(x.Type()) {
 			return "" // a mapping request (verified bookkeeping type)
 		}
+		if feedsOnlySourcemap(x, 0) {
+			return "" // backing array of a slice literal that is only stored into a sourcemap value
+		}
+		return fmt.Sprintf("%T", in)
+	case *ssa.Slice:
+		if feedsOnlySourcemap(x, 0) {
+			return ""
+		}
 		return fmt.Sprintf("%T", in)
 	case *ssa.Store:
+		if fa, ok := x.Addr.(*ssa.FieldAddr); ok && isSourcemapPkgType(fa.X.Type()) {
+			return "" // filling a field of a sourcemap value: information flows into the map, not out of it
+		}
+		if ia, ok := x.Addr.(*ssa.IndexAddr); ok {
+			if al, ok := ia.X.(*ssa.Alloc); ok && feedsOnlySourcemap(al, 0) {
+				return "" // element of a slice literal that is only stored into a sourcemap value
+			}
+		}
 		if fa, ok := x.Addr.(*ssa.FieldAddr); ok && isSourcemapType(deref(fa.Type())) {
 			return ""
 		}
@@ -1231,9 +1247,98 @@ func notSourcemapOnly(in ssa.Instruction, mapperFld *types.Var) string {
 		if cal := x.Call.StaticCallee(); cal != nil && pkgPathOf(cal) == modPath+"/sourcemap" {
 			return ""
 		}
+		if cal := x.Call.StaticCallee(); cal != nil && sourcemapOnlyFn(cal, mapperFld, 0) {
+			return "" // a helper that does nothing but fill sourcemap values
+		}
 		return "call of " + x.Call.Value.Name() + " (not in package sourcemap)"
 	}
 	return fmt.Sprintf("%T", in)
+}
+
+// sourcemapOnlyFn: a library function without results whose every instruction is source-map bookkeeping (it fills
+// fields of sourcemap values from its other parameters and does nothing else), and which uses its sourcemap-typed
+// parameters only that way. Calling it under the source-map switch cannot influence the code.
+var smOnlyMemo = map[*ssa.Function]int{} // 1 = yes, 2 = no, 3 = in progress
+
+func sourcemapOnlyFn(f *ssa.Function, mapperFld *types.Var, depth int) bool {
+	if f == nil || len(f.Blocks) == 0 || !isLibPath(pkgPathOf(f)) || depth > 3 {
+		return false
+	}
+	if f.Signature.Results().Len() != 0 {
+		return false
+	}
+	switch smOnlyMemo[f] {
+	case 1:
+		return true
+	case 2, 3:
+		return false
+	}
+	smOnlyMemo[f] = 3
+	ok := true
+	for _, b := range f.Blocks {
+		for _, in := range b.Instrs {
+			// locals of a function without results cannot carry anything out of it
+			if al, isAl := in.(*ssa.Alloc); isAl && !al.Heap {
+				continue
+			}
+			if st, isSt := in.(*ssa.Store); isSt {
+				if al, isAl := st.Addr.(*ssa.Alloc); isAl && !al.Heap {
+					continue
+				}
+			}
+			if notSourcemapOnly(in, mapperFld) != "" {
+				ok = false
+			}
+		}
+	}
+	for _, p := range f.Params {
+		if !isSourcemapType(p.Type()) || p.Referrers() == nil {
+			continue
+		}
+		for _, r := range *p.Referrers() {
+			if badSourcemapUse(p, r) != "" {
+				ok = false
+			}
+		}
+	}
+	if ok {
+		smOnlyMemo[f] = 1
+	} else {
+		smOnlyMemo[f] = 2
+	}
+	return ok
+}
+
+// feedsOnlySourcemap: v (the backing array of a slice literal, its element addresses, the slice made of it) is used
+// for nothing but being stored into a field of a sourcemap value.
+func feedsOnlySourcemap(v ssa.Value, depth int) bool {
+	if depth > 4 || v.Referrers() == nil || len(*v.Referrers()) == 0 {
+		return false
+	}
+	for _, r := range *v.Referrers() {
+		switch x := r.(type) {
+		case *ssa.DebugRef:
+		case *ssa.Store:
+			if x.Addr == v {
+				continue // initialising an element
+			}
+			fa, ok := x.Addr.(*ssa.FieldAddr)
+			if !ok || !isSourcemapPkgType(fa.X.Type()) {
+				return false
+			}
+		case *ssa.IndexAddr:
+			if x.X != v || !feedsOnlySourcemap(x, depth+1) {
+				return false
+			}
+		case *ssa.Slice:
+			if x.X != v || !feedsOnlySourcemap(x, depth+1) {
+				return false
+			}
+		default:
+			return false
+		}
+	}
+	return true
 }
 
 func badSourcemapUse(v ssa.Value, r ssa.Instruction) string {
@@ -1241,6 +1346,9 @@ func badSourcemapUse(v ssa.Value, r ssa.Instruction) string {
 	case *ssa.Call:
 		if cal := x.Call.StaticCallee(); cal != nil && pkgPathOf(cal) == modPath+"/sourcemap" {
 			return ""
+		}
+		if cal := x.Call.StaticCallee(); cal != nil && sourcemapOnlyFn(cal, nil, 0) {
+			return "" // a helper that does nothing but fill sourcemap values
 		}
 		return "passed to " + x.Call.Value.Name()
 	case *ssa.Store:
@@ -1269,6 +1377,19 @@ func badSourcemapUse(v ssa.Value, r ssa.Instruction) string {
 	case *ssa.FieldAddr, *ssa.Field:
 		if !isSourcemapPkgType(v.Type()) {
 			return "" // a mapping request of package ast: its uses are verified by bookkeepingRequestTypes
+		}
+		if fa, ok := x.(*ssa.FieldAddr); ok && fa.Referrers() != nil {
+			onlyWritten := len(*fa.Referrers()) > 0
+			for _, r2 := range *fa.Referrers() {
+				if st, ok := r2.(*ssa.Store); !ok || st.Addr != ssa.Value(fa) {
+					if _, dbg := r2.(*ssa.DebugRef); !dbg {
+						onlyWritten = false
+					}
+				}
+			}
+			if onlyWritten {
+				return "" // the field is written, never read: information flows into the map
+			}
 		}
 		return "a field of a sourcemap value is read outside package sourcemap"
 	case *ssa.Return:
@@ -1419,6 +1540,8 @@ func r14_7(c *Ctx) {
 					key := fmt.Sprintf("%s: store #%d of the pending buffer", fnName(f), n["p"])
 					if el, ok := sliceLitElems(x.Val); ok && len(el) == 0 {
 						c.ok(key, x.Pos(), "stores an empty buffer")
+					} else if truncatedToEmpty(x.Val, pi.pendings) {
+						c.ok(key, x.Pos(), "empties the buffer in place (pending[:0])")
 					} else if k, ok := x.Val.(*ssa.Const); ok && k.IsNil() {
 						c.ok(key, x.Pos(), "stores nil")
 					} else if pi.only(x) {
@@ -1527,6 +1650,46 @@ func r14_7(c *Ctx) {
 			}
 		}
 	}
+	// regions that run only under an opt-in option: a bool field of the Compiler (other than the pretty flag) that the
+	// constructor leaves false — a compiler as New() makes it never enters them, so its compact output is the buffer
+	optRegion := map[*ssa.BasicBlock]bool{}
+	newFn := c.fn("compiler.New")
+	for _, sf := range scope7 {
+		for _, b := range sf.Blocks {
+			iff := blockIf(b)
+			if iff == nil {
+				continue
+			}
+			u, ok := iff.Cond.(*ssa.UnOp)
+			if !ok || u.Op != token.MUL {
+				continue
+			}
+			fa, ok := u.X.(*ssa.FieldAddr)
+			if !ok || !namedIs(fa.X.Type(), "compiler", "Compiler") {
+				continue
+			}
+			fld := fieldOfAddr(fa)
+			if fld == ppFlag || !types.Identical(fld.Type(), types.Typ[types.Bool]) || newFn == nil {
+				continue
+			}
+			setInNew := false
+			allInstrs(newFn, func(_ *ssa.BasicBlock, _ int, in2 ssa.Instruction) {
+				if st2, ok := in2.(*ssa.Store); ok {
+					if _, ok := isFieldAddr(st2.Addr, fld); ok {
+						if k, ok := st2.Val.(*ssa.Const); !ok || k.Value == nil || k.Value.String() != "false" {
+							setInNew = true
+						}
+					}
+				}
+			})
+			if setInNew {
+				continue
+			}
+			for blk := range edgeRegion(sf, b, 0) {
+				optRegion[blk] = true
+			}
+		}
+	}
 	codeFld := c.fieldByName("compiler", "CompileResult", "Code")
 	allInstrs(compile, func(_ *ssa.BasicBlock, _ int, in ssa.Instruction) {
 		st, ok := in.(*ssa.Store)
@@ -1570,6 +1733,10 @@ func r14_7(c *Ctx) {
 			}
 			if in, ok := l.(ssa.Instruction); ok && ppRegion[in.Block()] {
 				c.ok(key, l.Pos(), "post-processing happens only under the pretty flag")
+				continue
+			}
+			if in, ok := l.(ssa.Instruction); ok && optRegion[in.Block()] {
+				c.ok(key, l.Pos(), "post-processing happens only under an opt-in option that New() leaves off: a default compact compilation is the buffer as printed")
 				continue
 			}
 			c.bad(key, l.Pos(), "the compact Code is not the writer's buffer as printed: compact compilation would differ from debug.ToString")
